@@ -224,6 +224,9 @@ func zero(t types.Type) value {
 	case *types.Pointer:
 		return (*value)(nil)
 	case *types.Array:
+		if t.Len() > 1<<22 {
+			panic(unsupported(fmt.Sprintf("array of %d elements (%s)", t.Len(), t)))
+		}
 		a := make(array, t.Len())
 		for i := range a {
 			a[i] = zero(t.Elem())
